@@ -40,6 +40,10 @@ def gen_ops(schema, c, rnd, nids, maxops=3, dup=False):
         if k < 0.4:
             ns = rnd.sample(names, rnd.randint(1, min(2, len(names))))
             kv = [[n, value_for(schema, c, n, rnd, nids)] for n in ns]
+            for pair in kv:
+                # the identifier values that the id-clash histories give to several instances
+                if pair[1].startswith('u:') and rnd.random() < 0.25:
+                    pair[1] = 'u:%d' % rnd.choice([201, 202, 203])
             if dup and rnd.random() < 0.3:
                 # one attribute named twice (the adapter uses two spellings): both conditions address the one stored value
                 n = rnd.choice(ns)
